@@ -53,6 +53,33 @@ theorem lookupTag_mergeTo (src dest : Tags) (n : Nat) :
         · simp only [hkn]
           cases lookupTag src n <;> simp
 
+theorem lookupTag_mem (a : Tags) (n v : Nat) (h : lookupTag a n = some v) : (n, v) ∈ a := by
+  induction a with
+  | nil => simp [lookupTag] at h
+  | cons p a ih =>
+    obtain ⟨k, w⟩ := p
+    simp only [lookupTag] at h
+    split at h
+    · rename_i c
+      have : k = n := by simpa using c
+      simp only [Option.some.injEq] at h
+      subst this; subst h; simp
+    · exact List.mem_cons_of_mem _ (ih h)
+
+theorem hasConflict_false_iff (a b : Tags) : hasConflict a b = false ↔ NoConflict a b := by
+  unfold hasConflict NoConflict
+  rw [List.any_eq_false]
+  constructor
+  · intro h n v w h1 h2
+    have := h (n, v) (lookupTag_mem a n v h1)
+    simp only [h1, h2] at this
+    simpa using this
+  · intro h p hp
+    cases h1 : lookupTag a p.1 <;> cases h2 : lookupTag b p.1 <;> simp
+    exact h _ _ _ h1 h2
+
+instance (a b : Tags) : Decidable (NoConflict a b) := decidable_of_iff _ (hasConflict_false_iff a b)
+
 theorem tagsSub_refl (a : Tags) : TagsSub a a := fun _ _ h => h
 theorem tagsSub_trans {a b c : Tags} (h1 : TagsSub a b) (h2 : TagsSub b c) : TagsSub a c :=
   fun n v h => h2 n v (h1 n v h)
@@ -159,9 +186,9 @@ theorem keepsF_branch_tree (force : Bool) (l m : Loc) (f : Flags) (hc : core m =
       | exact ⟨fun _ _ h => Or.inl h, fun _ _ h => Or.inr h⟩
       | skip
 
-theorem applyFlags_keepsF (l : Loc) (f : Flags) (force : Bool) (hinv : NoConflict l.tags l.refTags)
+theorem applyFlags_keepsF (v : Variant) (l : Loc) (f : Flags) (force : Bool) (hinv : NoConflict l.tags l.refTags)
     (hd : f.destroyTree = true → l.tree = true) (hcr : f.createTree = true → l.tree = false) :
-    KeepsF force l (applyFlags l f force).1 := by
+    KeepsF force l (applyFlags v l f force).1 := by
   unfold applyFlags
   split
   · exact keepsF_refl force l hinv
@@ -173,14 +200,15 @@ theorem applyFlags_keepsF (l : Loc) (f : Flags) (force : Bool) (hinv : NoConflic
     repeat' split
     · exact keepsF_refl force l hinv
     · exact keepsF_refl force l hinv
+    · exact keepsF_refl force l hinv
     · exact keepsF_of_core force l l _ (by simp) (keepsF_refl force l hinv)
     · exact keepsF_of_core force l l _ (by simp) (keepsF_refl force l hinv)
     · exact keepsF_of_core force l _ _ (by simp) hbt
     · exact keepsF_of_core force l _ _ (by simp) hbt
 
 /-- not forced: `_check` lets a reference be created only when the tips agree, so the tip never moves -/
-theorem applyFlags_tip (l : Loc) (f : Flags) (hinv : RefInv l) (hcr : f.createReference = true → l.branch ≠ .reference) :
-    (applyFlags l f false).1.tip = l.tip ∧ (applyFlags l f false).1.hist = l.hist := by
+theorem applyFlags_tip (v : Variant) (l : Loc) (f : Flags) (hinv : RefInv l) (hcr : f.createReference = true → l.branch ≠ .reference) :
+    (applyFlags v l f false).1.tip = l.tip ∧ (applyFlags v l f false).1.hist = l.hist := by
   have hcore : ∀ m : Loc, core m = core l → (f.createReference = true → l.refTip = l.tip) →
       (stTree f (stBranch f m)).tip = l.tip ∧ (stTree f (stBranch f m)).hist = l.hist := by
     intro m hc hs
@@ -208,16 +236,51 @@ theorem applyFlags_tip (l : Loc) (f : Flags) (hinv : RefInv l) (hcr : f.createRe
   · exact ⟨rfl, rfl⟩
   · exact ⟨rfl, rfl⟩
   · exact ⟨rfl, rfl⟩
+  · exact ⟨rfl, rfl⟩
   · exact tipOf l _ (by simp)
   · exact tipOf l _ (by simp)
-  · rename_i h1 h2 h3 h4 h5 h6
+  · rename_i h1 h2 h3 h3b h4 h5 h6
     have := hcore (stRepo f l) (by simp) (hsync h3)
     have t2 := tipOf (stTree f (stBranch f (stRepo f l))) (stUnbind f (stTree f (stBranch f (stRepo f l)))) (by simp)
     exact ⟨t2.1.trans this.1, t2.2.trans this.2⟩
-  · rename_i h1 h2 h3 h4 h5 h6
+  · rename_i h1 h2 h3 h3b h4 h5 h6
     have := hcore (stRepo f l) (by simp) (hsync h3)
     have t2 := tipOf (stTree f (stBranch f (stRepo f l)))
       (stDropRepo f l.sharedAbove (stBind f (stUnbind f (stTree f (stBranch f (stRepo f l)))))) (by simp)
     exact ⟨t2.1.trans this.1, t2.2.trans this.2⟩
+
+/-- the flags of every factory only destroy a tree that exists and only create one that does not -/
+theorem factory_tree_flags (l : Loc) (t : Target) (f : Flags) (h : factory l t = .ok f) :
+    (f.destroyTree = true → l.tree = true) ∧ (f.createTree = true → l.tree = false) := by
+  cases t <;> simp [factory, plan, planShared] at h
+  all_goals first
+    | (subst h; simp) ; done
+    | (cases hr : l.repo <;> simp_all <;> (subst h; simp))
+    | skip
+  all_goals (cases hr : l.repo <;> try simp_all) <;> (try subst h) <;> simp_all
+
+/-- a reference is only ever created in place of a local branch -/
+theorem factory_reference_flag (l : Loc) (t : Target) (f : Flags) (h : factory l t = .ok f) :
+    f.createReference = true → l.branch ≠ .reference := by
+  cases t <;> simp [factory, plan, planShared] at h
+  all_goals first
+    | (subst h; simp) ; done
+    | (cases hr : l.repo <;> simp_all <;> (subst h; simp))
+    | skip
+  all_goals (cases hr : l.repo <;> try simp_all) <;> (try subst h) <;> simp_all
+
+theorem keeps_treeInv (l l' : Loc) (h : Keeps l l') (hi : TreeInv l) : TreeInv l' := by
+  obtain ⟨h1, _, _, _, _, h5, _, h7⟩ := h
+  unfold TreeInv at *
+  intro ht hd
+  cases hlt : l.tree
+  · exact (h7 hlt ht).2
+  · have := h5 hlt ht
+    rw [this.1, h1]; exact hi hlt (by rw [← this.2]; exact hd)
+
+theorem keeps_refInv (l l' : Loc) (h : Keeps l l') (hi : RefInv l) : RefInv l' := by
+  obtain ⟨h1, h2, _, _, hr, _⟩ := h
+  obtain ⟨r1, r2, _, _, _, _, r7⟩ := hr
+  exact ⟨by rw [r1, r2, h1, h2]; exact hi.1, r7⟩
 
 end BreezyVerif.C52
